@@ -7,6 +7,7 @@ H4  get_tag = iter().find(|t| t.typ() == T::ID).map(|t| t.cast::<T>()); iter() =
 H5  the tag walk's transition premises for H = HeaderTagHeader (shared with C03/C09)
 """
 from .. import an
+from .. import select as SEL
 from .. import guard as G
 from .. import layout as L
 from .. import spec as S
@@ -78,38 +79,32 @@ def run(ctx):
     if gt is None:
         ctx.fail("ANCHOR", "get_tag", "Multiboot2Header::get_tag exists", "", "missing")
     else:
-        rt, _ = an.of(F, gt).ret()
-        n_ = N(rt) if rt is not None else None
+        sel, why = SEL.analyse(F, gt)
         ok = False
-        why = G.show(rt)[:300]
-        if n_ is not None and n_[0] == "call" and cn(n_[1]) == "core::option::Option::map":
-            fnd, mapc = n_[2]
-            if fnd[0] == "call" and "Iterator>::find" in str(fnd[1]) and "TagIter<" in str(fnd[1]):
-                itarg, fc = fnd[2]
-                fresh = ("ref", ("aggr", ("adt", "multiboot2_common::iter::TagIter", "TagIter", ("next_tag_offset", "buffer", "_t")),
-                                 (("c", 0), ("ref", fld(deref(fld(deref(arg(1)), 0)), 1)), ("aggr", ("adt", "core::marker::PhantomData", "PhantomData", ()), ()))))
-                it_ok = itarg == fresh
-                pc = F.fns.get(fc[1][1]) if fc[0] == "aggr" else None
-                mc = F.fns.get(mapc[1][1]) if mapc[0] == "aggr" else None
-                pred = N(an.of(F, pc).ret()[0]) if pc else None
-                mp = N(an.of(F, mc).ret()[0]) if mc else None
-                # derived PartialEq on the fieldless enum HeaderTagType: eq(&typ, &T::ID)
-                pred_ok = False
-                if pred is not None and pred[0] == "call" and "HeaderTagType as core::cmp::PartialEq>::eq" in str(pred[1]):
-                    a0, a1 = pred[2]
-                    typ_of_tag = fld(fld(deref(deref(arg(2))), 0), 0)
-                    pred_ok = (a0 in (("ref", typ_of_tag),) or a0[0] == "ref") and (a1[0] in ("cs",) or (a1[0] == "ref") or "promoted" in str(a1))
-                    pred_ok = pred_ok and (a0 == ("ref", typ_of_tag) or a0 == ("ref", ("call", "multiboot2_header::tags::HeaderTagHeader::typ", (("ref", fld(deref(deref(arg(2))), 0)),))))
-                # inlined derived PartialEq: discriminant(tag.typ) == discriminant(T::ID)
-                if pred is not None and pred[0] == "bin" and pred[1] == "Eq":
-                    typ_of_tag = fld(fld(deref(deref(arg(2))), 0), 0)
-                    sides = (pred[2], pred[3])
-                    a = [x for x in sides if x == ("discr", typ_of_tag)]
-                    b = [x for x in sides if x[0] == "discr" and x[1][0] == "deref" and x[1][1][0] == "cs" and "promoted" in x[1][1][1]]
+        if sel is not None:
+            payload = fld(deref(fld(deref(arg(1)), 0)), 1)
+            it = SEL.canon_place(SEL.unref(sel["iter"]))
+            it_ok = it[0] == "aggr" and it[1][:3] == ("adt", "multiboot2_common::iter::TagIter", "TagIter") and it[2][0] == ("c", 0) and \
+                SEL.canon_place(SEL.unref(it[2][1])) == SEL.canon_place(payload)
+            typ_of_tag = fld(fld(deref(SEL.ELEM), 0), 0)
+            sides = SEL.eq_sides(sel["pred"])
+            pred_ok = False
+            if sides is not None:
+                a0, a1, via = sides
+                if via is None:
+                    # derived PartialEq on the fieldless enum HeaderTagType, inlined: discriminant(tag.typ) == discriminant(T::ID)
+                    ss = [SEL.canon_place(x) for x in (a0, a1)]
+                    a = [x for x in ss if x == ("discr", typ_of_tag) or x == ("discr", ("call", "multiboot2_header::tags::HeaderTagHeader::typ", (fld(deref(SEL.ELEM), 0),)))]
+                    b = [x for x in ss if x[0] == "discr" and SEL.unref(x[1])[0] == "cs" and "promoted" in SEL.unref(x[1])[1]]
                     pred_ok = len(a) == 1 and len(b) == 1
-                map_ok = mp is not None and mp[0] == "call" and cn(mp[1]) == "multiboot2_common::DynSizedStructure::cast" and mp[1].endswith("::cast::<T>") and mp[2] == (arg(2),)
-                ok = it_ok and pred_ok and map_ok
-                why = "fresh iter()=%s predicate typ()==T::ID=%s cast::<T>=%s (predicate term %s)" % (it_ok, pred_ok, map_ok, str(pred)[:200])
+                elif "HeaderTagType as core::cmp::PartialEq>::eq" in str(via):
+                    ss = [SEL.unref(SEL.canon_place(x)) for x in (a0, a1)]
+                    a = [x for x in ss if x == typ_of_tag or x == ("call", "multiboot2_header::tags::HeaderTagHeader::typ", (fld(deref(SEL.ELEM), 0),))]
+                    b = [x for x in ss if x[0] == "cs" and "promoted" in x[1]]
+                    pred_ok = len(a) == 1 and len(b) == 1
+            map_ok = SEL.is_cast_of_elem(sel["map"], poly=True)
+            ok = it_ok and pred_ok and map_ok
+            why = "form %s: fresh iter()=%s predicate typ()==T::ID=%s cast::<T>=%s (predicate term %s)" % (sel["form"], it_ok, pred_ok, map_ok, G.show(sel["pred"])[:200])
         ctx.check(ok, "H4", "get_tag", "get_tag::<T>() = iter().find(|t| t.typ() == T::ID).map(|t| t.cast::<T>()) for every T", gt.get("span", ""), how=why, why=why)
     # derived PartialEq of the fieldless HeaderTagType is discriminant equality
     pe = [f for k, f in F.fns.items() if f.get("impl_self_name") == "HeaderTagType" and f.get("impl_trait") == "core::cmp::PartialEq" and f.get("name") == "eq"]
